@@ -3,15 +3,24 @@
 
    Not proved in general (checked instead by the verified checker on every output, and proved
    for every point set of the 4x4, 3x4 and 5x3 grids below):
-     hull_label_spec   : forall m pts slack, pts sorted by (j,i), 0 <= i <= m, 0 <= slack ->
-                         HullSpec pts (hull_label m pts slack)          (clauses (b) cyclic closure and (c))
-     guard_irrelevant  : ... -> hull_label m pts slack = hull_label m pts slack'   (independence of the slack)
-     no_overflow       : ... -> zlen (hull_label m pts slack) <= slack + zlen pts
-     hull_unique       : HullSpec S V -> HullSpec S V' -> V' is a rotation of V (not attempted). *)
-From Coq Require Import ZArith List Bool.
+     hull_label_spec_partial : forall m pts slack, pts sorted by (j,i), 0 <= i <= m, 0 <= slack ->
+                         HullSpec pts (hull_label m pts slack).
+       Proved parts: (a) C02_vertices_subset; local convexity of every non-wrapping triple
+       C02_emit_chain_convex; (c) for the whole lower chain C02_lower_pass_contains (monotone-chain
+       argument, all inputs).  Missing lemmas: upper_pass_contains (the mirror image of
+       lower_pass_contains for decreasing columns, on top of the lower chain, through the guard),
+       turn_strict (the two triples around the U-turn at end_j and the wrap-around triples at
+       start_j are strict after the final prune), stack_nodup.
+     guard_irrelevant  : ... -> hull_label m pts slack = hull_label m pts slack'.  Missing lemma:
+       guard_only_blocks_duplicate (the guard fires only when the stack already holds every
+       distinct pixel, i.e. the blocked point is already on the stack) + stack_nodup.
+     no_overflow       : ... -> zlen (hull_label m pts slack) <= slack + zlen pts.  Missing: stack_nodup.
+     hull_unique up to rotation: the vertex SET and the list up to permutation are determined
+       (C02_hull_vertices_unique); missing: successor_unique (same sense => same cyclic successor). *)
+From Coq Require Import ZArith List Bool Permutation.
 From Centro Require Import Base.Sx Model.Hull Spec.HullSpec
   Proofs.HullEmit Proofs.HullGeom Proofs.HullPerm Proofs.HullBatch Proofs.HullTop
-  Proofs.HullOutline Proofs.HullSweep Proofs.HullSweep44 Proofs.HullSweep34 Proofs.HullSweep53.
+  Proofs.HullOutline Proofs.HullUnique Proofs.HullBelow Proofs.HullSweep Proofs.HullSweep44 Proofs.HullSweep34 Proofs.HullSweep53.
 Import ListNotations.
 Open Scope Z_scope.
 
@@ -51,6 +60,35 @@ Theorem C02_vertex_extreme : forall S V v p q lam mu, HullSpec S V -> In v V -> 
   (lam + mu) * snd v = lam * snd p + mu * snd q -> p = v /\ q = v.
 Proof. exact vertex_extreme. Qed.
 Print Assumptions C02_vertex_extreme.
+
+(* "exactly the extreme points": for ANY polygon meeting the specification, a point is a vertex iff
+   it is an exposed point of S (a line through it has all of S on one side and meets S only there) *)
+Theorem C02_hull_exactly_extreme : forall S V v, HullSpec S V -> (In v V <-> exposed S v).
+Proof. exact hull_exactly_extreme. Qed.
+Print Assumptions C02_hull_exactly_extreme.
+
+(* so the specification determines the vertex set, and the vertex list up to order *)
+Theorem C02_hull_vertices_unique : forall S V V', HullSpec S V -> HullSpec S V' ->
+  (forall v, In v V <-> In v V') /\ Permutation V V'.
+Proof. exact hull_vertices_unique. Qed.
+Print Assumptions C02_hull_vertices_unique.
+
+(* monotone-chain step: EMIT of a point right of the stack keeps every pixel on the inner side *)
+Theorem C02_emit_below_step : forall st p s, st <> [] -> jdesc st -> chain_ok st -> snd (hd p st) < snd p ->
+  (  (snd s <= snd (hd p st) /\ edges_ok st s /\ bottom_ok st s)
+   \/ (snd s = snd p /\ fst p <= fst s)) ->
+  edges_ok (p :: prune st p) s /\ jdesc (p :: prune st p) /\ chain_ok (p :: prune st p).
+Proof. exact emit_below_step. Qed.
+Print Assumptions C02_emit_below_step.
+
+(* (c) for the lower chain, all inputs: after the first EMIT loop of hull_label every pixel lies on
+   the inner side of, or on, every edge of the chain (which has strictly increasing columns) *)
+Theorem C02_lower_pass_contains : forall m pts p0 e, In p0 pts ->
+  (forall s, In s pts -> snd p0 <= snd s) -> (forall s, In s pts -> fst s <= m) -> snd p0 <= e ->
+  let st1 := fold_left (lower_emit m (build_lower m pts)) (cols_up (snd p0) e) [] in
+  jdesc st1 /\ chain_ok st1 /\ forall s, In s pts -> snd s <= e -> edges_ok st1 s.
+Proof. exact lower_pass_contains. Qed.
+Print Assumptions C02_lower_pass_contains.
 
 (* the outline pre-filter only drops pixels that are no vertex of the hull of the full set *)
 Theorem C02_outline_keeps_extreme : forall S V v, HullSpec S V -> In v V ->
